@@ -16,6 +16,7 @@ mod model;
 mod props;
 mod rec;
 mod run;
+mod sqlp;
 mod val;
 
 use engine::{Acc, Opts, Report, Tier};
@@ -158,11 +159,22 @@ fn main() {
                     std::process::exit(2);
                 });
                 let o2 = opts.clone();
+                // replay and regression files wrap the case in a `detail` object
+                let detail = v.get("detail").cloned().unwrap_or(v);
                 let acc = with_watchdog(&id, 300, 3600, move || {
                     let mut acc = Acc::new(&o2.id);
-                    (prop.replay)(&o2, &v, &mut acc);
+                    (prop.replay)(&o2, &detail, &mut acc);
                     acc
                 });
+                if !acc.inconclusive.is_empty() || acc.evaluations == 0 {
+                    for i in &acc.inconclusive {
+                        println!("INCONCLUSIVE: {}", i);
+                    }
+                    if acc.evaluations == 0 {
+                        println!("INCONCLUSIVE: the replay file did not lead to any evaluation");
+                    }
+                    std::process::exit(2);
+                }
                 // replay is strict: known findings are reported as such, everything else
                 // as a violation pointing back at the same file
                 let mut code = 0;
